@@ -268,6 +268,14 @@ PROPS = {
         "verus": [V("frame", pair=("proto", "p_frame_read_matches_reference_20")), V("frame_async"), V("stream_header", pair=("proto", "p_stream_header_read_matches_reference")), V("frame_write", pair=("proto", "p_frame_write_roundtrip_8"))],
         "not_decided": ["in-order delivery (quinn)", "worker tasks / concurrency", "async composites beyond their leaf futures"],
     },
+    "C02": {
+        "level": "proof",
+        "claim": "The decision half of session setup, for every sequence of frames and I/O outcomes on the request stream (Verus unit endpoint, on the extracted tail of Endpoint::connect from the settings exchange on, and on SessionRequest::send_response / accept_impl): after the request has been written, GREASE frames are skipped and the FIRST other read decides - connect returns a usable Connection IFF that read is a HEADERS frame whose field section decodes to a response with a valid status in 200..=299 (and the driver is still alive), carrying the request stream's OWN session id; it fails as SessionRejected IFF the status is valid but not 2xx or the server reset the request stream; a non-HEADERS frame, an undecodable field section or a missing / malformed status is a local H3 error (H3_FRAME_UNEXPECTED, the decoder's code, H3_MESSAGE_ERROR), never an acceptance and never 'rejected'; the outcome depends on the response only through its status (unit session). Server side: accepting writes the 200 response (+ the given fields) and yields a Connection with the request stream's own session id - so both endpoints name the session by the same stream; a response that cannot be written because the client stopped the stream closes the connection with H3_CLOSED_CRITICAL_STREAM.",
+        "note": "Assumed stand-ins: Driver (accept_settings / open_session / register_session answer by unknown outcomes), the session stream (unknown infinite sequence of read results), quinn connection handle, proto-layer decoders (under contract in units qpack_decode / session / ids). R12: the prefix of connect (URL parsing, DNS, QUIC connect) is dropped and NOT under contract; the request construction (SessionRequest::new + the additional-header loop: url crate, HashMap iteration) is an assumed function of the inputs whose only failure is ReservedHeader. NOT decided: that the server application sees exactly the authority / path / fields (end-to-end over QUIC; the sans-IO encode/decode of the field section is decided under C14/C16), the close code put on the wire by connect's error paths, async scheduling.",
+        "kani": [],
+        "verus": [V("endpoint"), V("session")],
+        "not_decided": ["request reaches the server byte-for-byte (end to end)", "URL / DNS / QUIC connect prefix"],
+    },
     "C03": {
         "level": "proof",
         "claim": "Datagram codec and size arithmetic: for every quarter stream id and payload the encoder emits varint(qid)||payload with the exact announced size (all-or-nothing, Kani); the proto and the driver decoders return exactly the bytes after the id varint for inputs of ANY length, attributed to session 4*qid, and reject ids > 2^60-1 / truncated ids with H3_DATAGRAM_ERROR (Verus unit datagram + Kani on every byte string <= 12); Connection::max_datagram_size never underflows and is exact for any limit the peer may advertise.",
@@ -367,7 +375,7 @@ PROPS = {
         "claim": "StatusCode: every numeric constructor yields Ok(c) iff 100 <= v <= 599 with c == v (complete), is_successful iff 200..=299, FromStr accepts exactly decimal strings of values in 100..=599; admission predicates for ALL header maps (Verus unit session): a request is admitted iff :method CONNECT, :scheme https, :protocol webtransport, :authority and :path present, each refusal names the documented cause, the request keeps the whole map; a response is accepted iff :status is present and a valid status, depending on nothing else.",
         "note": "FromStr bounded to strings <= 5 bytes (all u16 decimals; u16::from_str trusted beyond). Known finding: StatusCode::default() == 0. Not under contract: SessionRequest::insert / Headers::insert (HashMap<String,String> + iterator closure: reserved-header immutability is NOT decided), SessionRequest::new (url crate), server refusal codes and connect()'s reaction (async driver).",
         "kani": STATUS_KANI + [K("p_reserved_headers_list", "RESERVED_HEADERS is exactly the five WebTransport pseudo-headers", [P + "session.rs::SessionRequest::RESERVED_HEADERS"])],
-        "verus": [V("session"), V("driver")],
+        "verus": [V("session"), V("driver"), V("endpoint")],
         "not_decided": ["SessionRequest::new / url crate", "driver reaction to refused requests"],
     },
     "C19": {
@@ -435,7 +443,6 @@ def setup():
 
 
 NOT_APPLICABLE = {
-    "C02": "end-to-end observable of Endpoint::connect <-> SessionRequest::accept over a live QUIC connection (async/tokio/quinn); no per-function contract in reach expresses 'the server application sees ...'. Its sans-IO stages are decided under C14, C16, C18.",
     "C05": "property of tokio::select! schedules in Worker::run_impl over concrete quinn streams; Kani has no async runtime/threads and quinn streams cannot be constructed without a connection. The leaf futures it rests on are under contract in C15.",
     "C07": "liveness/independence over task interleavings (stalled streams never block others): whole-history concurrency property, outside contract-based deductive verification (no Kani threads, Verus would need permission types on tokio internals).",
     "C08": "exactly-once delivery over mpsc queues, cancellation and multi-task accept: whole-history concurrency property, no per-call contract expresses it.",
